@@ -117,3 +117,23 @@ package function
 //@   at line "if sample.V < lastValue {" set acc = ite(samples[rangeindex].V < erPrev, acc + erPrev, acc)
 //@   ensures[C01,C03] value-is-the-reference-formula: result == acc * erFactor
 //@   loop 0 invariant[C01,C03] raw-increase-with-resets-so-far: resultValue == acc && lastValue == ite(rangeindex + 1 == 0, 0.0, samples[rangeindex].V)
+
+// ---- operator.go: noArgFunctionOperator.Next - time(), pi() (C06, C07, C18) -----------------------
+// One sample (id 0) per step of the grid, computed from the step's time only.
+//@ extern field:execution/function.noArgFunctionOperator.call(f) r
+//@   pure
+//@ func (*noArgFunctionOperator).Next
+//@   requires ctx != nil && o != nil && o.vectorPool != nil && !isnil(o.call) && o.step >= 1 && o.stepsBatch >= 1
+//@   ensures[C18] never-fails: result1 == nil
+//@   ensures[C07,C18] ended-iff-past-maxt: isnil(result0) <==> old(o.currentStep) > o.maxt
+//@   ensures[C07,C18] batch-size: !isnil(result0) ==> 1 <= len(result0) && len(result0) <= o.stepsBatch
+//@   ensures[C06,C07,C18] one-vector-per-step: !isnil(result0) ==> forall k in 0..len(result0) :: result0[k].T == old(o.currentStep) + k*o.step && result0[k].T <= o.maxt
+//@   ensures[C07,C18] batch-is-maximal: !isnil(result0) ==> len(result0) == o.stepsBatch || o.currentStep > o.maxt
+//@   ensures[C07,C18] cursor-advances: !isnil(result0) ==> o.currentStep == old(o.currentStep) + len(result0)*o.step
+//@   ensures[C06,C18] one-sample-with-id-zero: !isnil(result0) ==> forall k in 0..len(result0) :: len(result0[k].Samples) == 1 && len(result0[k].SampleIDs) == 1 && result0[k].SampleIDs[0] == 0
+//@   at field:execution/function.noArgFunctionOperator.call assert[C06] value-of-the-steps-time: $f.StepTime == o.currentStep
+//@   at line "sv.Samples = append(sv.Samples, result.V)" assert[C06] sample-is-the-function-value: result.V == callres("field:execution/function.noArgFunctionOperator.call", ncalls("field:execution/function.noArgFunctionOperator.call")).Point.V
+//@   loop 0 invariant grid: o != nil && o.vectorPool != nil && !isnil(o.call) && 0 <= i && i <= o.stepsBatch && len(ret) == i && !isnil(ret) && fresh(ret) &&
+//@       o.currentStep == old(o.currentStep) + i*o.step && o.step == old(o.step) && o.maxt == old(o.maxt) && o.stepsBatch == old(o.stepsBatch) && o.step >= 1 && (i == 0 ==> o.currentStep <= o.maxt)
+//@   loop 0 invariant steps: forall k in 0..i :: ret[k].T == old(o.currentStep) + k*o.step && ret[k].T <= o.maxt
+//@   loop 0 invariant samples: forall k in 0..i :: len(ret[k].Samples) == 1 && len(ret[k].SampleIDs) == 1 && ret[k].SampleIDs[0] == 0 && allocated(ret[k].Samples) && allocated(ret[k].SampleIDs)
